@@ -619,6 +619,12 @@ struct Extractor : RecursiveASTVisitor<Extractor> {
 		if(fd->isConstexpr()) J.attribute("constexpr", true);
 		if(fd->isNoReturn()) J.attribute("noreturn", true);
 		if(fd->isVariadic()) J.attribute("variadic", true);
+		switch(fd->getAccess()) {
+		case AS_public: J.attribute("access", "public"); break;
+		case AS_protected: J.attribute("access", "protected"); break;
+		case AS_private: J.attribute("access", "private"); break;
+		default: break;
+		}
 
 		J.attributeBegin("params");
 		J.arrayBegin();
@@ -846,6 +852,12 @@ struct Extractor : RecursiveASTVisitor<Extractor> {
 		return true;
 	}
 	std::vector<const FunctionDecl *> pending;
+	std::vector<const StaticAssertDecl *> sasserts;
+	bool VisitStaticAssertDecl(StaticAssertDecl *d) {
+		if(sm.isInMainFile(sm.getExpansionLoc(d->getLocation())) && !d->getAssertExpr()->isValueDependent())
+			sasserts.push_back(d);
+		return true;
+	}
 
 	void emitRecord(const CXXRecordDecl *rd) {
 		J.objectBegin();
@@ -960,6 +972,22 @@ struct Consumer : ASTConsumer {
 		J.arrayBegin();
 		for(auto *rd : ex.records)
 			ex.emitRecord(rd);
+		J.arrayEnd();
+		J.attributeEnd();
+		J.attributeBegin("static_asserts");
+		J.arrayBegin();
+		for(auto *d : ex.sasserts) {
+			J.objectBegin();
+			J.attribute("loc", ex.locStr(d->getLocation()));
+			if(auto *m = d->getMessage())
+				J.attribute("msg", m->getString());
+			J.attribute("failed", d->isFailed());
+			bool val = false;
+			bool ok = !d->isFailed() && d->getAssertExpr()->EvaluateAsBooleanCondition(val, ctx);
+			J.attribute("evaluated", ok);
+			J.attribute("value", ok && val);
+			J.objectEnd();
+		}
 		J.arrayEnd();
 		J.attributeEnd();
 		J.attributeBegin("diagnostics");
